@@ -20,3 +20,5 @@ def run(out, sc, tier, seed):
               backends=("c", "py"))
     run_value_machine(out, sc, "C06", tier, fields=FIELDS)
     run_harvest(out, sc, "C06")
+    from .common import run_witnesses
+    run_witnesses(out, sc, "C06", fields=FIELDS)
